@@ -636,6 +636,25 @@ fn gold_colliding(anchor: u64, buckets: u64, from: u64, n: usize) -> Vec<u64> {
     (from..).filter(|k| sip(*k) % buckets == want).take(n).collect()
 }
 
+/// The first `n` keys whose GoldHashMap buckets (SipHash(0,0) mod `buckets`) are pairwise different: a slot that is
+/// re-used by a *different* key then belongs to a different chain (a stale cached hash or link shows up at the
+/// next relink), which the all-colliding alphabet cannot show.
+fn gold_spread(buckets: u64, n: usize) -> Vec<u64> {
+    let mut seen = Vec::new();
+    let mut out = Vec::new();
+    for k in 0u64.. {
+        let b = sip(k) % buckets;
+        if !seen.contains(&b) {
+            seen.push(b);
+            out.push(k);
+            if out.len() == n {
+                break;
+            }
+        }
+    }
+    out
+}
+
 fn gold_cfg(cap: usize, cache: bool, gc: bool, reuse: bool) -> GoldHashMapConfig {
     GoldHashMapConfig {
         initial_capacity: cap,
@@ -707,6 +726,13 @@ fn main() {
         reg.add(gold_spec::<u32>("GoldHashMap[u32,cap5,no_freelist_reuse]", || gold_cfg(1, false, false, false), p(&g4, vec![], 4, 5)));
         reg.add(gold_spec::<u32>("GoldHashMap[u32,cap5,hash_cache]/prefill6", || gold_cfg(1, true, false, true), p(&g3, gpre.clone(), 3, 4)));
         reg.add(gold_spec::<u32>("GoldHashMap[u32,cap5,auto_gc]/prefill6", || gold_cfg(1, false, true, true), p(&g3, gpre.clone(), 3, 4)));
+        // keys in pairwise different buckets (of the 5- and of the 11-bucket table where possible)
+        let s4 = gold_spread(5, 4);
+        reg.add(gold_spec::<u32>("GoldHashMap[u32,cap5]/spread", || gold_cfg(1, false, false, true), p(&s4, vec![], 4, 5)));
+        reg.add(gold_spec::<u32>("GoldHashMap[u32,cap5,hash_cache]/spread", || gold_cfg(1, true, false, true), p(&s4, vec![], 4, 5)));
+        reg.add(gold_spec::<u64>("GoldHashMap[u64,cap5,auto_gc,hash_cache]/spread", || gold_cfg(1, true, true, true), p(&s4, vec![], 4, 5)));
+        reg.add(gold_spec::<u32>("GoldHashMap[small()]/spread", GoldHashMapConfig::small, p(&s4, vec![], 4, 5)));
+        reg.add(gold_spec::<u32>("GoldHashMap[u32,cap5,hash_cache]/spread/prefill6", || gold_cfg(1, true, false, true), p(&s4[..3], (100..106).collect(), 4, 5)));
         reg.add(gold_spec::<u32>("GoldHashMap[small()]", GoldHashMapConfig::small, p(&g4, vec![], 3, 4)));
         reg.add(gold_spec::<u32>("GoldHashMap[high_churn()]", GoldHashMapConfig::high_churn, p(&g4, vec![], 3, 4)));
 
